@@ -33,6 +33,8 @@ structure Cfg where
   applVer : String := ""
   /-- after the `fix:` the type switches on session.State look through pendingTimeout -/
   lookThroughPending : Bool := true
+  /-- ResetSeqTime: seconds of the (UTC) day at which the numbers are reset by a mid-connection Logon; `none` = not enabled -/
+  resetSeqTime : Option Nat := none
   deriving Repr, Inhabited
 
 def bsName : Nat → String
@@ -164,6 +166,8 @@ structure Sess where
   stopped : Bool := false
   hb : Int := 0
   log : List Obs := []             -- observations of the current event, newest first
+  /-- lastCheckedResetSeqTime (seconds on the harness clock); `none` = the zero time.Time -/
+  lastCheckedReset : Option Int := none
   deriving Inhabited
 
 def Sess.emit (s : Sess) (o : Obs) : Sess := { s with log := o :: s.log }
@@ -180,6 +184,7 @@ def Sess.setStopped (s : Sess) : Sess := { s with stopped := true }
 def Sess.setHb (s : Sess) (h : Int) : Sess := { s with hb := h }
 def Sess.setTarget (s : Sess) (n : Int) : Sess := { s with store := { s.store with target := n } }
 def Sess.clearLog (s : Sess) : Sess := { s with log := [] }
+def Sess.setLastChecked (s : Sess) (now : Int) : Sess := { s with lastCheckedReset := some now }
 def Sess.openConn (s : Sess) : Sess := { s with out := true, inboxOpen := true, inbox := [], sentReset := false }
 
 /-- store mutations are observed (the harness wraps the real store) -/
@@ -672,6 +677,29 @@ def checkSessionTime (fuel : Nat) (s : Sess) (inRange same : Bool) : Sess :=
       else s
 end
 
+/-- the reset instant of the day `now` lies in: time.Date(now's Y-M-D, ResetSeqTime's h:m:s) in UTC, as seconds on the
+    same clock as `now` (whose origin is a midnight) -/
+def resetInstant (rs : Nat) (now : Int) : Int := now / 86400 * 86400 + rs
+
+/-- lastChecked.Before(resetSeqTimeToday) && !now.Before(resetSeqTimeToday) -/
+def crossedReset (rs : Nat) (last now : Int) : Bool :=
+  decide (last < resetInstant rs now) && decide (resetInstant rs now ≤ now)
+
+/-- stateMachine.CheckResetTime: not enabled ⇒ nothing; the first call and every call without a connection only
+    record the clock; otherwise a Logon with ResetSeqNumFlag is sent when today's reset instant lies in
+    (last check, now] -/
+def checkResetTime (s : Sess) (now : Int) : Sess :=
+  match s.cfg.resetSeqTime with
+  | none => s
+  | some rs =>
+    match s.lastCheckedReset with
+    | none => s.setLastChecked now
+    | some last =>
+      if !s.st.connected then s.setLastChecked now
+      else
+        let s := if crossedReset rs last now then sendLogonInReplyTo s true else s
+        s.setLastChecked now
+
 def fuelOf (s : Sess) : Nat := 4 * s.inbox.length + 8
 
 inductive TimerEv | needHeartbeat | peerTimeout | logonTimeout | logoutTimeout
@@ -710,6 +738,7 @@ inductive Ev
   | send (m : OutMsg)                     -- SendToTarget (queueForSend)
   | flush                                 -- SendAppMessages
   | sessionTime (inRange same : Bool)     -- CheckSessionTime with a chosen clock
+  | resetTime (now : Int)                 -- CheckResetTime with a chosen clock (seconds since a midnight, UTC)
   deriving Inhabited
 
 def connect (s : Sess) : Sess × String :=
@@ -761,6 +790,7 @@ def stepCore (s : Sess) (e : Ev) : Sess × String :=
       let s := checkSessionTime fuel s true true
       ((if s.st.loggedOn then sendQueued s else s.setToSend []), "ok")
     | .sessionTime r sm => (checkSessionTime fuel s r sm, "ok")
+    | .resetTime now => (checkResetTime s now, "ok")
 
 /-- one event; returns the new state, the observations in order, and a status word for the op -/
 def step (s : Sess) (e : Ev) : Sess × List Obs × String :=
